@@ -30,6 +30,10 @@ def run(chk):
         history = []
         for qi in range(nq):
             ps = prop_list(rng)
+            if qi < 4:
+                # request shapes aimed at the offset bookkeeping: grains blocks of every size before a velocity
+                k = [0, 2, 3, 1][qi]
+                ps = [[3, rng.randrange(4), k], [5, 0, 0], [1, 0, 0], [3, rng.randrange(4), (k + 1) % 4], [5, 0, 0], [4, 0, 0]]
             two_d = "cross section" in wj and rng.random() < 0.5
             if two_d:
                 pos, d = query2d(rng, wj, sph)
